@@ -84,6 +84,48 @@ pub broadcast proof fn lemma_as_ref_elem<A>(s: Seq<A>, i: int)
     ensures #![trigger s.as_ref(), s[i]] *s.as_ref()[i] == s[i],
 {}
 
+// ---- Iterator::enumerate: a *provided* trait method that vstd leaves unspecified.  It is
+// given a specification through a second external trait specification; because a clause
+// there may not mention vstd's IteratorSpec functions (definition cycle), the clause is an
+// uninterpreted relation and its meaning is the ASSUMED axiom below: enumerating a lawful
+// iterator yields the same items, each paired with its position.
+#[verifier::external_type_specification]
+#[verifier::external_body]
+#[verifier::accept_recursive_types(I)]
+pub struct ExEnumerate<I>(core::iter::Enumerate<I>);
+
+pub uninterp spec fn enumerate_rel<I>(it: I, r: core::iter::Enumerate<I>) -> bool;
+
+#[verifier::external_trait_specification]
+pub trait ExIteratorEnumerate {
+    type ExternalTraitSpecificationFor: Iterator;
+    type Item;
+    fn enumerate(self) -> (r: core::iter::Enumerate<Self>) where Self: Sized
+        ensures enumerate_rel(self, r);
+}
+
+#[verifier::prophetic]
+pub open spec fn enumerate_post<I: Iterator>(it: I, r: core::iter::Enumerate<I>) -> bool {
+    &&& r.obeys_prophetic_iter_laws()
+    &&& r.remaining().len() == it.remaining().len()
+    &&& forall|i: int| 0 <= i < it.remaining().len() ==> (#[trigger] r.remaining()[i]) == (i as usize, it.remaining()[i])
+    &&& r.will_return_none() == it.will_return_none()
+    &&& (r.decrease() is Some) == (it.decrease() is Some)
+}
+
+/// ASSUMED (axiom): the meaning of `Iterator::enumerate` on a lawful iterator
+pub broadcast axiom fn axiom_enumerate<I: Iterator>(it: I, r: core::iter::Enumerate<I>)
+    requires #[trigger] enumerate_rel(it, r), it.obeys_prophetic_iter_laws(),
+    ensures enumerate_post(it, r);
+
+/// trigger plumbing (proved from the axiom): an item of the inner iterator is an item of the enumeration
+pub broadcast proof fn lemma_enumerate_elem<I: Iterator>(it: I, r: core::iter::Enumerate<I>, i: int)
+    requires enumerate_rel(it, r), it.obeys_prophetic_iter_laws(), 0 <= i < it.remaining().len(),
+    ensures #![trigger enumerate_rel(it, r), it.remaining()[i]] r.remaining()[i] == (i as usize, it.remaining()[i]),
+{
+    axiom_enumerate(it, r);
+}
+
 impl<K, V, const N: usize> Map<K, V, N> {
     pub open spec fn slot(&self, i: int) -> Option<(K, V)> {
         slot_of(self.pairs, i)
@@ -204,8 +246,8 @@ pub open spec fn remove_post<K: Borrow<Q>, Q: PartialEq + ?Sized, V, const N: us
     &&& post.wf_weak()
     &&& lawful::<K, Q>() ==> match r {
         Some(kv) => exists|j: int| {
-            &&& #[trigger] pre.first_match(q, j)
-            &&& pre.slot(j) == Some(kv)
+            &&& (#[trigger] pre.slot(j)) == Some(kv)
+            &&& pre.first_match(q, j)
             &&& post.slen() == pre.slen() - 1
             &&& j != post.slen() ==> post.slot(j) == pre.slot(pre.slen() - 1)
             &&& forall|i: int| 0 <= i < post.slen() && i != j ==> post.slot(i) == pre.slot(i)
